@@ -69,8 +69,14 @@ def main(argv=None):
         if prop in RECORDED:
             from harness import repotests
             for module, prefixes in RECORDED[prop]:
-                core.preflight(module)
-                res = repotests.merge(res, *repotests.judge(prop, module, prefixes))
+                try:
+                    core.preflight(module)
+                    res = repotests.merge(res, *repotests.judge(prop, module, prefixes))
+                except core.MachineryError as ex:
+                    # the recorded part is an extra: when the repository's test-suite cannot be run or recorded here, the
+                    # generated part still decides the property; the loss is stated in the evidence, never hidden
+                    print(f"NOTE property={prop}: recorded executions of the repository's tests unavailable ({str(ex)[:200]})", file=sys.stderr)
+                    res["coverage"].setdefault("recorded_from_repository_tests", []).append(dict(module=module, unavailable=str(ex)[:400]))
     except core.MachineryError as ex:
         print(f"MACHINERY-FAILURE property={prop}: {ex}", file=sys.stderr)
         core.cleanup()
